@@ -34,8 +34,9 @@ CHECKS = {
           'the documented sums of local terms (XXZ spin-1/2 and spin-1, Bose-Hubbard, Fermi-Hubbard with the Jordan-Wigner factor; Ising via its automaton), the compiled graphs denote those sums '
           '(via C05/C17), operator tables are charge consistent (magnetization / particle number / spin) and whenever a constructor returns all tensors are block sparse, and the term lists are closed '
           'under the adjoint word map for real parameters; the dense elements of the returned MPO equal the documented term lists for every L >= 1 and all parameters (XXZ, spin-1 XXZ, Bose-Hubbard every d, '
-          'Fermi-Hubbard, Ising) and the dense operator is Hermitian for real parameters (41 theorems, conditional on the constructor returning). Not proved: words / dense matrix of the hand-built '
-          'linear_fermionic graph (modelled completely and compared exactly for L = 1..6), that the constructors return for every L (C05/C17 give it under their guards), that is_qsparse never fires.',
+          'Fermi-Hubbard, Ising) and the dense operator is Hermitian for real parameters; linear_fermionic: the hand-built graph is valid for every L >= 1 and denotes sum_i c_i I^i (C|A) Z^(L-1-i) '
+          '(Z-string to the right), dense elements and the +-1 charge shift (46 theorems; dense clauses conditional on the constructor returning). Not proved: that the constructors return for every L '
+          '(C05/C17 give it under their guards) and that the final is_qsparse assertion never fires.',
   'note': KERNEL_NOTE + ' No kernel contracts. sqrt(2), sqrt(k) of the spin-1 / Bose tables are symbols whose square is given.',
   'design_ref': 'DESIGN.md §7 C06',
  },
@@ -43,9 +44,11 @@ CHECKS = {
   'text': 'Proof (partial): for every orbital count and all coefficient tensors the chain enumeration of the bond-optimized spinless and spin-orbital constructions never fails (case analysis, '
           'to_spin_opchain look-ups and charge assertions) and yields well-formed chains, so with C05 the optimized construction succeeds incl. L = 1 and its graph denotes the sum of its chains; '
           'explicit constructions: node ids pairwise distinct, terminal look-ups defined, (spinless, L >= 4) every look-up made by term insertion defined; tensors block sparse whenever a constructor '
-          'returns; dense elements of the optimized MPOs equal the sum over the enumerated chains (12 theorems). Not proved: that this chain sum equals the second-quantized operator and optimized = explicit '
+          'returns; dense elements of the optimized MPOs equal the sum over the enumerated chains, and for the spinless optimized construction this equals sum_ij t_ij a+_i a_j + 1/2 sum_ijkl v_ijkl a+_i a+_j a_l a_k '
+          'with dense Jordan-Wigner matrices (all 13 index orders, anticommutation relations proved); the gauge transform is modelled: shapes and table look-ups for every L, no KeyError and unitarity of the '
+          'gauge matrices under a nid_map well-formedness predicate proved for L = 4 and executed for L <= 8 (29 theorems). Not proved: spin-orbital chain sum = second-quantized operator, optimized = explicit '
           '(compared as complete graphs / MPOs by the correspondence and densely by the oracle); '
-          'the gauge-transform clause is a numerical always-on sub-check (L up to 7/8, complex unitaries), not a theorem: the transform is not modelled.',
+          'the conjugation identity of the gauge transform is not proved: it is tied by an exact correspondence on the 32 exactly representable monomial unitaries (L 4..7/8, every pair) and an always-on numerical stream for generic complex unitaries.',
   'note': KERNEL_NOTE + ' No kernel contracts.',
   'design_ref': 'DESIGN.md §7 C07',
  },
